@@ -4,12 +4,67 @@ import relengine
 PID = "C08"
 
 
+# Query texts outside what spec/QueryShapes.tla generates (scoping corners the builder state machine has no action for).
+# They go through the same pipeline and the same judges; they are hand-written, not enumerated by TLC.
+SPECIAL = [
+    # a CTE and, in the same FROM, a derived table with its own CTE of the same name
+    "WITH w AS (SELECT a FROM t WHERE a > 0) SELECT o.a AS big, s.a AS small FROM w AS o JOIN (WITH w AS (SELECT a FROM t WHERE a <= 0) SELECT a FROM w) AS s ON o.a = s.a + 1",
+    "WITH w AS (SELECT a, c FROM u) SELECT x.a AS a, y.c AS c FROM w AS x JOIN (WITH w AS (SELECT a, c FROM u WHERE c > 0) SELECT a, c FROM w) AS y ON x.a = y.a",
+    # two CTEs, the second reading the first
+    "WITH w AS (SELECT a, b FROM t), v AS (SELECT a FROM w WHERE b > 0) SELECT v.a AS a, w.b AS b FROM v JOIN w ON v.a = w.a",
+    # a derived table named like a CTE defined outside it
+    "WITH w AS (SELECT a FROM u) SELECT d.a AS a FROM (SELECT a + 1 AS a FROM w) AS d JOIN w ON d.a = w.a",
+    # the same table three times under different aliases
+    "SELECT p.a AS pa, q.a AS qa, r.c AS rc FROM u AS p JOIN u AS q ON p.a = q.c JOIN u AS r ON q.a = r.a",
+    # ORDER BY / LIMIT inside a derived table that is aggregated
+    "SELECT COUNT(a) AS n, SUM(a) AS s FROM (SELECT a FROM t ORDER BY a DESC, b DESC, s DESC LIMIT 2) AS d",
+    "SELECT COUNT(a) AS n FROM (SELECT a FROM t ORDER BY a ASC, b ASC, s ASC LIMIT 2 OFFSET 1) AS d",
+    # DISTINCT over an expression, IN list, BETWEEN-like conjunction
+    "SELECT DISTINCT (a + b) AS x FROM t WHERE a IN (0, 2) AND b >= 0",
+]
+DBS = [
+    {"t": {"rows": [[0, 1, 100], [1, -9999, 101], [2, 2, 102]]}, "u": {"rows": [[0, 1], [2, -9999]]}},
+    {"t": {"rows": [[1, 0, 100], [1, 2, 100], [0, 0, 102]]}, "u": {"rows": [[1, 2], [0, 0], [2, 1]]}},
+    {"t": {"rows": []}, "u": {"rows": [[1, 1]]}},
+]
+
+
+def special_part(rep, tier):
+    import os
+    import common as C
+    import relenc
+    import sqlgen
+    cases = []
+    for s in SPECIAL:
+        for k, db in enumerate(DBS):
+            cases.append({"id": len(cases), "sql": s, "tables": sqlgen.tables(db, variant=k % 2), "okeys": [], "total": False})
+    wd = C.workdir("c08s")
+    cp, op = os.path.join(wd, "cases.ndjson"), os.path.join(wd, "obs.ndjson")
+    C.write_ndjson(cp, [{"id": c["id"], "sql": c["sql"], "tables": c["tables"]} for c in cases])
+    C.qv(["sql-run"], stdin_path=cp, stdout_path=op, timeout=600)
+    obs = C.read_ndjson(op)
+    recs = [relenc.encode(o, c) for o, c in zip(obs, cases)]
+    tp = os.path.join(wd, "trace.ndjson")
+    C.write_ndjson(tp, recs)
+    tr, fails, _ = relengine.validate(tp, "c08_special_judge")
+    for f in fails:
+        i, judge = f[0], f[1]
+        if relengine.JUDGE_PROP.get(judge) != PID:
+            continue
+        c, o = cases[i - 1], obs[i - 1]
+        rep.fail(f"special/{judge}/{SPECIAL.index(c['sql'])}", f"judge {judge} failed on a hand-written query",
+                 {"engine": "sql-run", "case": {"sql": c["sql"], "tables": c["tables"], "rendered": o.get("rendered"), "original_result": o.get("orig"), "rendered_result": o.get("rend")}})
+    return {"queries": len(SPECIAL), "databases": len(DBS), "compiled": sum(1 for r in recs if r["outcome"] == "ok"),
+            "compared": sum(1 for r in recs if r.get("cmp") == 1), "outcomes": {s[:60]: recs[k * len(DBS)]["outcome"] + ":" + str(recs[k * len(DBS)].get("stage", "")) for k, s in enumerate(SPECIAL)}}
+
+
 def run(tier, t0):
     return relengine.report(PID, tier, t0, [
+        "hand-written queries (lib/props/c08.py SPECIAL) cover scoping corners outside the generator: they are judged like the others but are not enumerated by TLC",
         "SQLite 3.40 as the executor of original and rendered SQL (UDFs of harness/src/sqlx.rs)",
         "rank encoding of values and bounds (lib/relenc.py); TLC decides containment",
         "generated fragment: spec/QueryShapes.tla over two tables, values 0..2, NULL, three strings",
-    ])
+    ], extra=special_part)
 
 
 def replay(path):
